@@ -1,92 +1,149 @@
 import LaunchpadModel.Model.MintLimits
+import LaunchpadModel.Model.MintLimitsX
 import LaunchpadModel.Model.Proto
 /-!
 Driver for C03 (mint limits). One output line per input line. `|` below separates what the generator writes
 from the witness fields the harness appends after reading the real contracts (both parts are plain `k=v` words).
+Runs `LP.MintLimits.stepX` (= `step` + the ghost `closed`, the leaf `stage‖sender‖allocation` and the stage record).
 
 * `case t0=<ns> addrs=<a,…>`                                              → `case`
 * `compat mk=<0..8> wk=<0..6>`                                           → `ok <0|1|2>` (`LP.MintLimits.compatible`)
 * `t <ns>`                                                               clock (environment)
 * `newwl id=<k> kind=<0..6> … | res=<0|1>`                               a whitelist contract was created (environment)
-* `wlop wl=<k> … | res=<0|1>`                                            whitelist-side edit (environment)
-* `create mk=<0..8> wl=<k|-> lim=<n> ntok=<n|-> maxpal=<n> admin=<a> … | wlact=<0|1> pre=<0|1>`
+* `wlop wl=<k> … | res=` / `other v=<variant> … | res=` / `migrate … | res=`   environment (`XOp.env`): nothing C03 owns may move
+* `create mk=<0..8> wl=<k|-> lim=<n> ntok=<n|-> maxpal=<n> admin=<a> … | wlact=<0|1> pre=<0|1> res=`
 * `mint sender=<a> funds=<n> stage=<n|-> proof=<-|…> alloc=<n|-> |
-        act= mem= leaf= wlim= mcnt= mcfg= sid= slim=<n|-> started= pre=`
-* `mintto sender=<a> to=<b> funds=<n> | pre=`   /   `mintfor sender=<a> to=<b> id=<n> funds=<n> | pre=`
+        act= mem= leaf= wlim= mcnt= mcfg= sid= slim=<n|-> se=<n|-> sb=<bytes> lq=<bytes|-> started= pre= res=`
+  (`sb` = the sender's address string, `lq` = the leaf string the harness asked the whitelist about, `leaf` = its answer:
+  the model builds `leafOf fields sb` ITSELF and only accepts the answer if that is the string that was asked;
+  `se` = what the record of stage `sid` itself grants the sender)
+* `mintto sender=<a> to=<b> funds=<n> | pre= res=`   /   `mintfor sender=<a> to=<b> id=<n> funds=<n> | pre= res=`
 * `setlim sender=<a> n=<n> funds=<0|1>`
-* `setwl sender=<a> wl=<k> funds=<0|1> | started= oldact= newact= pre=`
-* `purge sender=<a> funds=<0|1> | pre=`
+* `setwl sender=<a> wl=<k> funds=<0|1> | started= oldact= newact= pre= res=`
+* `purge sender=<a> funds=<0|1> | pre= res=`
 
-Answer: `<ok|err> <obs>`; `obs` = `none` before a successful `create`, otherwise
-`lim= wl=<k|-> mc=<a:n,…> mw=<a:n,…|-> pub= wlm= fs= ss= ts= tot=<f,s,t> own=` (maps: non-zero entries only).
+`started` / `pre` are gates OTHER properties own (clock, price, supply, token ids). They are the harness' *prediction*;
+`res` is what the real contract did. If the model's verdict under the predicted gates differs from `res` but some other value
+of the gate bits explains `res`, the model uses those bits and reports them behind ` ## ` (`g=`): a wrong prediction is DRIFT,
+not a C03 disagreement. What no value of the gate bits can explain (e.g. an accepted mint at `count ≥ limit`) stays a disagreement.
+
+Answer: `<ok|err> <primary> ## <drift>`; `primary` = `none` before a successful `create`, otherwise
+`lim= wl=<k|-> mc=<a:n,…> mw=<a:n,…|-> coh=<1|0|->`; drift = `g=<gate bits used|-> pub= wlm= fs= ss= ts= tot=<f,s,t> own=`
+(raw counter maps — storage layout — and token ownership; maps: non-zero entries only).
 -/
 open LP LP.Proto LP.MintLimits
 
 structure D where
   univ : List Nat := []
   wls : List (Nat × WlKind) := []
-  st : Option State := none
+  st : Option XState := none
 
 def nz (univ : List Nat) (f : Nat → Nat) : String :=
   renderPairs ((univ.map fun a => (a, f a)).filter fun p => p.2 != 0)
 
-def obs (d : D) : String :=
+def bit (b : Bool) : String := if b then "1" else "0"
+
+/-- `coh` = the coherence verdict of the last op (`-` = not applicable), `g` = the gate bits used -/
+def obs (d : D) (coh g : String) : String :=
   match d.st with
-  | none => "none"
-  | some s =>
+  | none => s!"none ## g={g}"
+  | some x =>
+    let s := x.base
     let wl := match s.wl with | none => "-" | some (k, _) => toString k
     let mc := renderPairs (d.univ.map fun a => (a, reportCount s a))
     let mw := if s.kind.flavor = .flex then renderPairs (d.univ.map fun a => (a, reportWl s a)) else "-"
-    s!"lim={s.limit} wl={wl} mc={mc} mw={mw} pub={nz d.univ s.pub} wlm={nz d.univ s.wlc} fs={nz d.univ (s.stg 1)} ss={nz d.univ (s.stg 2)} ts={nz d.univ (s.stg 3)} tot={s.tot 1},{s.tot 2},{s.tot 3} own={nz d.univ s.owned}"
+    s!"lim={s.limit} wl={wl} mc={mc} mw={mw} coh={coh} ## g={g} pub={nz d.univ s.pub} wlm={nz d.univ s.wlc} fs={nz d.univ (s.stg 1)} ss={nz d.univ (s.stg 2)} ts={nz d.univ (s.stg 3)} tot={s.tot 1},{s.tot 2},{s.tot 3} own={nz d.univ s.owned}"
 
 def parseView (ws : List String) : Option View := do
-  let act ← boolKv ws "act"; let mem ← boolKv ws "mem"; let leaf ← boolKv ws "leaf"
+  let act ← boolKv ws "act"; let mem ← boolKv ws "mem"
   let wlim ← natKv ws "wlim"; let mcnt ← natKv ws "mcnt"; let mcfg ← boolKv ws "mcfg"
   let sid ← natKv ws "sid"; let slim ← optNatKv ws "slim"
-  pure { active := act, memberPlain := mem, leafOk := leaf, limit := wlim, memberCount := mcnt, merkleCfg := mcfg,
+  pure { active := act, memberPlain := mem, leafOk := false, limit := wlim, memberCount := mcnt, merkleCfg := mcfg,
          stageId := sid, stageLimit := slim }
 
-def parseOp (d : D) (ws : List String) : Option Op :=
+def optBytes (ws : List String) (key : String) : Option (Option (List Nat)) :=
+  match kv ws key with
+  | none => none
+  | some "-" => some none
+  | some s => (natList? s).map some
+
+def parseOracle (ws : List String) : Option Oracle := do
+  let v ← parseView ws
+  let leaf ← boolKv ws "leaf"
+  let lq ← optBytes ws "lq"
+  let se ← optNatKv ws "se"
+  pure { view := v, verify := fun l => leaf && (lq == some l), stageEnt := se }
+
+/-- an operation with its gate bits left open: (has a `started` bit, predicted started, predicted pre, the op) -/
+structure Gated where
+  hasSt : Bool
+  st : Bool
+  pre : Bool
+  build : Bool → Bool → XOp
+
+def parseOp (d : D) (ws : List String) : Option Gated :=
   match ws.head? with
   | some "mint" => do
     let a ← natKv ws "sender"
     let stage ← optNatKv ws "stage"; let alloc ← optNatKv ws "alloc"
     let proof ← kv ws "proof"
-    let v ← parseView ws
+    let o ← parseOracle ws
+    let sb ← natListKv ws "sb"
     let started ← boolKv ws "started"; let pre ← boolKv ws "pre"
-    pure (.mint a { stage := stage, proof := proof != "-", alloc := alloc } v started pre)
+    pure ⟨true, started, pre, fun st p => .mint a sb { stage := stage, proof := proof != "-", alloc := alloc } o st p⟩
   | some "mintto" => do
     let a ← natKv ws "sender"; let b ← natKv ws "to"; let pre ← boolKv ws "pre"
-    pure (.mintTo a b false pre)
+    pure ⟨false, false, pre, fun _ p => .mintTo a b false p⟩
   | some "mintfor" => do
     let a ← natKv ws "sender"; let b ← natKv ws "to"; let pre ← boolKv ws "pre"
-    pure (.mintTo a b true pre)
-  | some "setlim" => do
-    let a ← natKv ws "sender"; let n ← natKv ws "n"; let fu ← boolKv ws "funds"
-    pure (.setLimit a n fu)
+    pure ⟨false, false, pre, fun _ p => .mintTo a b true p⟩
   | some "setwl" => do
     let a ← natKv ws "sender"; let k ← natKv ws "wl"; let fu ← boolKv ws "funds"
     let started ← boolKv ws "started"; let oa ← boolKv ws "oldact"; let na ← boolKv ws "newact"; let pre ← boolKv ws "pre"
     -- an id that was never created: address validation / the Config query fails
     match d.wls.lookup k with
-    | some wk => pure (.setWhitelist a k wk fu started oa na pre)
-    | none => pure (.setWhitelist a k .immutable fu started oa na false)
+    | some wk => pure ⟨true, started, pre, fun st p => .setWhitelist a k wk fu st oa na p⟩
+    | none => pure ⟨true, started, pre, fun st _ => .setWhitelist a k .immutable fu st oa na false⟩
   | some "purge" => do
     let fu ← boolKv ws "funds"; let pre ← boolKv ws "pre"
-    pure (.purge fu pre)
+    pure ⟨false, false, pre, fun _ p => .purge fu p⟩
   | _ => none
 
-def parseCreate (d : D) (ws : List String) : Option (Except Err State) := do
+def isOk {α : Type} : Except Err α → Bool
+  | .ok _ => true
+  | .error _ => false
+
+/-- the gate bits to run with: the prediction if it explains `res` (or nothing does), else the first explanation -/
+def chooseGates (x : XState) (g : Gated) (res : Bool) : Bool × Bool :=
+  let cands := if g.hasSt then [(g.st, g.pre), (g.st, !g.pre), (!g.st, g.pre), (!g.st, !g.pre)]
+               else [(g.st, g.pre), (g.st, !g.pre)]
+  match cands.find? (fun c => isOk (stepX x (g.build c.1 c.2)) == res) with
+  | some c => c
+  | none => (g.st, g.pre)
+
+def gateStr (g : Gated) (c : Bool × Bool) : String := (if g.hasSt then bit c.1 else "") ++ bit c.2
+
+def parseCreate (d : D) (ws : List String) (pre : Bool) : Option (Except Err State) := do
   let mk ← (natKv ws "mk").bind MinterKind.ofIdx
   let wl ← optNatKv ws "wl"
   let lim ← natKv ws "lim"; let ntok ← optNatKv ws "ntok"; let maxpal ← natKv ws "maxpal"; let admin ← natKv ws "admin"
-  let wlact ← boolKv ws "wlact"; let pre ← boolKv ws "pre"
+  let wlact ← boolKv ws "wlact"
   match wl with
   | none => pure (create mk admin lim (ntok.getD 0) maxpal ntok.isNone none wlact pre)
   | some k =>
     match d.wls.lookup k with
     | some wk => pure (create mk admin lim (ntok.getD 0) maxpal ntok.isNone (some (k, wk)) wlact pre)
     | none => pure (.error .invalid)
+
+/-- coherence verdict of a successful step: only for whitelist mints booked under a tiered stage -/
+def cohOf (x : XState) (op : XOp) (e : Event) : String :=
+  match op, e with
+  | .mint _ _ _ o _ _, .wlMint _ sid _ _ _ _ =>
+    if sid = 0 then "-" else
+      match o.stageEnt with
+      | none => "-"
+      | some _ => bit (o.coherent x.base.kind.flavor)
+  | _, _ => "-"
 
 def c03Step (d : D) (line : String) : D × String :=
   let ws := words line
@@ -96,34 +153,54 @@ def c03Step (d : D) (line : String) : D × String :=
     match (natKv ws "mk").bind MinterKind.ofIdx, (natKv ws "wk").bind WlKind.ofIdx with
     | some k, some wk => (d, s!"ok {compatible k wk}")
     | _, _ => (d, "bad-op")
-  | some "t" => (d, s!"ok {obs d}")
+  | some "t" => (d, s!"ok {obs d "-" "-"}")
   | some "newwl" =>
     match natKv ws "id", (natKv ws "kind").bind WlKind.ofIdx, boolKv ws "res" with
-    | some id, some wk, some true => let d' := { d with wls := (id, wk) :: d.wls }; (d', s!"ok {obs d'}")
-    | some _, some _, some false => (d, s!"err {obs d}")
+    | some id, some wk, some true => let d' := { d with wls := (id, wk) :: d.wls }; (d', s!"ok {obs d' "-" "-"}")
+    | some _, some _, some false => (d, s!"err {obs d "-" "-"}")
     | _, _, _ => (d, "bad-op")
-  | some "wlop" =>
-    match boolKv ws "res" with
-    | some true => (d, s!"ok {obs d}")
-    | some false => (d, s!"err {obs d}")
-    | none => (d, "bad-op")
   | some "create" =>
-    match d.st with
-    | some _ => (d, s!"err {obs d}")
-    | none =>
-      match parseCreate d ws with
-      | none => (d, "bad-op")
-      | some (.ok s) => let d' := { d with st := some s }; (d', s!"ok {obs d'}")
-      | some (.error _) => (d, s!"err {obs d}")
-  | _ =>
-    match parseOp d ws with
-    | none => (d, "bad-op")
-    | some op =>
+    match d.st, boolKv ws "pre", boolKv ws "res" with
+    | some _, _, _ => (d, s!"err {obs d "-" "-"}")
+    | none, some pre, some res =>
+      match parseCreate d ws pre, parseCreate d ws (!pre) with
+      | some r, some r' =>
+        let (r, used) := if isOk r == res then (r, pre) else if isOk r' == res then (r', !pre) else (r, pre)
+        match r with
+        | .ok s => let d' := { d with st := some { base := s } }; (d', s!"ok {obs d' "-" (bit used)}")
+        | .error _ => (d, s!"err {obs d "-" (bit used)}")
+      | _, _ => (d, "bad-op")
+    | _, _, _ => (d, "bad-op")
+  | some "setlim" =>
+    match natKv ws "sender", natKv ws "n", boolKv ws "funds", d.st with
+    | some a, some n, some fu, some x =>
+      match stepX x (.setLimit a n fu) with
+      | .ok (x', _) => let d' := { d with st := some x' }; (d', s!"ok {obs d' "-" "-"}")
+      | .error _ => (d, s!"err {obs d "-" "-"}")
+    | some _, some _, some _, none => (d, "err none ## g=-")
+    | _, _, _, _ => (d, "bad-op")
+  | some w =>
+    if w == "wlop" || w == "other" || w == "migrate" then
+      -- environment: whatever the real contract answered, nothing in the C03 state may move
+      match boolKv ws "res", d.st with
+      | some res, some x =>
+        match stepX x .env with
+        | .ok (x', _) => let d' := { d with st := some x' }; (d', s!"{if res then "ok" else "err"} {obs d' "-" "-"}")
+        | .error _ => (d, "bad-op")
+      | some res, none => (d, s!"{if res then "ok" else "err"} {obs d "-" "-"}")
+      | none, _ => (d, "bad-op")
+    else
+    match parseOp d ws, boolKv ws "res" with
+    | some g, some res =>
       match d.st with
-      | none => (d, "err none")
-      | some s =>
-        match step s op with
-        | .ok (s', _) => let d' := { d with st := some s' }; (d', s!"ok {obs d'}")
-        | .error _ => (d, s!"err {obs d}")
+      | none => (d, s!"err none ## g={gateStr g (g.st, g.pre)}")
+      | some x =>
+        let c := chooseGates x g res
+        let op := g.build c.1 c.2
+        match stepX x op with
+        | .ok (x', e) => let d' := { d with st := some x' }; (d', s!"ok {obs d' (cohOf x op e) (gateStr g c)}")
+        | .error _ => (d, s!"err {obs d "-" (gateStr g c)}")
+    | _, _ => (d, "bad-op")
+  | none => (d, "bad-op")
 
 def main : IO Unit := runDriverRaw ({} : D) c03Step
